@@ -328,8 +328,12 @@ impl<K: CacheKey + 'static> DiskCache<K> {
         }
     }
 
-    /// Write data to disk file atomically
-    async fn write_file(&self, path: &Path, data: &Bytes) -> CacheResult<()> {
+    /// Write data to a temporary file next to `path` and return its name.
+    ///
+    /// The caller publishes it with a rename while holding the index write
+    /// lock, so that the file, its index entry and the counters change
+    /// together.
+    async fn write_temp_file(&self, path: &Path, data: &Bytes) -> CacheResult<PathBuf> {
         let _permit = self
             .io_semaphore
             .acquire()
@@ -349,18 +353,27 @@ impl<K: CacheKey + 'static> DiskCache<K> {
         ));
         let temp_path = PathBuf::from(temp_name);
 
-        // Ensure parent directory exists
-        if let Some(parent) = temp_path.parent() {
-            fs::create_dir_all(parent).map_err(CacheError::Io)?;
-        }
-
         {
-            let mut file = OpenOptions::new()
-                .write(true)
-                .create(true)
-                .truncate(true)
-                .open(&temp_path)
-                .map_err(CacheError::Io)?;
+            // Ensure parent directory exists. A concurrent clear() removes
+            // empty subdirectories, so creating the file is tried twice.
+            let mut attempt = 0;
+            let mut file = loop {
+                if let Some(parent) = temp_path.parent() {
+                    fs::create_dir_all(parent).map_err(CacheError::Io)?;
+                }
+                match OpenOptions::new()
+                    .write(true)
+                    .create(true)
+                    .truncate(true)
+                    .open(&temp_path)
+                {
+                    Ok(file) => break file,
+                    Err(e) if e.kind() == std::io::ErrorKind::NotFound && attempt == 0 => {
+                        attempt += 1;
+                    }
+                    Err(e) => return Err(CacheError::Io(e)),
+                }
+            };
 
             #[cfg(feature = "verif-hooks")]
             crate::verif_hooks::sched_point("disk.write.tmp_opened");
@@ -382,10 +395,8 @@ impl<K: CacheKey + 'static> DiskCache<K> {
 
         #[cfg(feature = "verif-hooks")]
         crate::verif_hooks::sched_point("disk.write.tmp_written");
-        // Atomic rename
-        fs::rename(&temp_path, path).map_err(CacheError::Io)?;
 
-        Ok(())
+        Ok(temp_path)
     }
 
     /// Read data from disk file
@@ -466,8 +477,12 @@ impl<K: CacheKey + 'static> DiskCache<K> {
                 // Recursively clear subdirectory, then remove it
                 self.clear_directory_recursive(&path)?;
                 let _ = fs::remove_dir(&path); // Best effort - might fail if not empty
-            } else {
-                // Remove file
+            } else if path
+                .extension()
+                .is_none_or(|ext| !ext.eq_ignore_ascii_case("tmp"))
+            {
+                // Remove file (a ".tmp" file belongs to a put that has not
+                // published its value yet; it is not cache content)
                 let _ = fs::remove_file(&path);
             }
         }
@@ -507,101 +522,126 @@ impl<K: CacheKey + 'static> AsyncCache<K> for DiskCache<K> {
     async fn get(&self, key: &K) -> CacheResult<Option<Bytes>> {
         let start_time = Instant::now();
 
-        // Check index first
-        let entry_info = {
-            let index = self
-                .index
-                .read()
-                .map_err(|_| CacheError::LockTimeout("index read lock".to_string()))?;
-            index.get(key).cloned()
-        };
+        // The file is read without holding the index lock. If the entry
+        // changes while that happens (a put, remove or clear ran in between),
+        // the bytes read may not belong to the entry that was looked up, so
+        // the lookup is simply done again.
+        loop {
+            // Check index first
+            let entry_info = {
+                let index = self
+                    .index
+                    .read()
+                    .map_err(|_| CacheError::LockTimeout("index read lock".to_string()))?;
+                index.get(key).cloned()
+            };
 
-        #[cfg(feature = "verif-hooks")]
-        crate::verif_hooks::sched_point("disk.get.looked_up");
-        if let Some(entry) = entry_info {
-            if entry.is_expired() {
-                // Remove expired entry
-                if let Ok(mut index) = self.index.write() {
-                    index.remove(key);
-                    self.entry_count.fetch_sub(1, Ordering::Relaxed);
-                    self.disk_usage
-                        .fetch_sub(entry.size_bytes as u64, Ordering::Relaxed);
+            #[cfg(feature = "verif-hooks")]
+            crate::verif_hooks::sched_point("disk.get.looked_up");
+            if let Some(entry) = entry_info {
+                let same_entry = |current: &DiskCacheEntry| {
+                    current.created_at == entry.created_at
+                        && current.size_bytes == entry.size_bytes
+                };
 
-                    // Delete file
-                    let _ = fs::remove_file(&entry.file_path);
-                }
-
-                self.metrics.record_get(false, start_time.elapsed());
-                return Ok(None);
-            }
-
-            // Read file content
-            match self.read_file(&entry.file_path).await {
-                Ok(data) => {
-                    #[cfg(feature = "verif-hooks")]
-                    crate::verif_hooks::sched_point("disk.get.file_read");
-                    // Update access time
+                if entry.is_expired() {
+                    // Remove the entry, unless a concurrent put has replaced
+                    // it with a fresh one since the lookup above
                     if let Ok(mut index) = self.index.write()
-                        && let Some(entry) = index.get_mut(key)
+                        && index.get(key).is_some_and(DiskCacheEntry::is_expired)
+                        && let Some(removed) = index.remove(key)
                     {
-                        entry.update_access();
-                    }
-
-                    self.metrics.record_get(true, start_time.elapsed());
-                    Ok(Some(data))
-                }
-                Err(e) => {
-                    // File read failed - remove from index
-                    if let Ok(mut index) = self.index.write() {
-                        index.remove(key);
                         self.entry_count.fetch_sub(1, Ordering::Relaxed);
                         self.disk_usage
-                            .fetch_sub(entry.size_bytes as u64, Ordering::Relaxed);
+                            .fetch_sub(removed.size_bytes as u64, Ordering::Relaxed);
+
+                        // Delete file
+                        let _ = fs::remove_file(&removed.file_path);
                     }
 
                     self.metrics.record_get(false, start_time.elapsed());
-                    Err(e)
+                    return Ok(None);
                 }
-            }
-        } else {
-            // Not in index - try to find file on disk as fallback
-            let file_path = self.get_file_path(key)?;
-            if file_path.exists() {
-                // Found file on disk - try to read it and add to index
-                match self.read_file(&file_path).await {
+
+                // Read file content
+                match self.read_file(&entry.file_path).await {
                     Ok(data) => {
-                        let size_bytes = data.len();
-                        let metadata = fs::metadata(&file_path).map_err(CacheError::Io)?;
-                        let created = metadata.created().unwrap_or_else(|_| SystemTime::now());
-
-                        // Add to index for future lookups
-                        let entry = DiskCacheEntry {
-                            file_path: file_path.clone(),
-                            size_bytes,
-                            created_at: created,
-                            expires_at: None, // Can't determine TTL from existing file
-                            last_accessed: SystemTime::now(),
-                            access_count: 1,
-                        };
-
+                        #[cfg(feature = "verif-hooks")]
+                        crate::verif_hooks::sched_point("disk.get.file_read");
+                        // Update access time
                         if let Ok(mut index) = self.index.write() {
-                            index.insert(key.clone(), entry);
-                            self.entry_count.fetch_add(1, Ordering::Relaxed);
-                            self.disk_usage
-                                .fetch_add(size_bytes as u64, Ordering::Relaxed);
+                            match index.get_mut(key) {
+                                Some(current) if same_entry(current) => current.update_access(),
+                                // Entry changed while the file was read
+                                _ => continue,
+                            }
                         }
 
                         self.metrics.record_get(true, start_time.elapsed());
                         return Ok(Some(data));
                     }
-                    Err(_) => {
-                        // File exists but couldn't read - ignore and fall through to miss
+                    Err(e) => {
+                        if let Ok(mut index) = self.index.write() {
+                            // Entry removed or replaced while the file was
+                            // opened: this read came too late for the old file
+                            if !index.get(key).is_some_and(same_entry) {
+                                continue;
+                            }
+
+                            // The indexed file is unreadable - remove from index
+                            index.remove(key);
+                            self.entry_count.fetch_sub(1, Ordering::Relaxed);
+                            self.disk_usage
+                                .fetch_sub(entry.size_bytes as u64, Ordering::Relaxed);
+                        }
+
+                        self.metrics.record_get(false, start_time.elapsed());
+                        return Err(e);
                     }
                 }
             }
 
+            // Not in index - a previous instance on this directory may have
+            // written the file. The whole step runs under the index lock so
+            // that no put, remove or clear can interleave with it.
+            let file_path = self.get_file_path(key)?;
+            if let Ok(mut index) = self.index.write() {
+                if index.contains_key(key) {
+                    // A put indexed the key meanwhile - look it up again
+                    continue;
+                }
+
+                // Found file on disk - read it and add to index
+                if let Ok(buffer) = fs::read(&file_path)
+                    && let Ok(metadata) = fs::metadata(&file_path)
+                {
+                    let data = Bytes::from(buffer);
+                    let size_bytes = data.len();
+                    let created = metadata.created().unwrap_or_else(|_| SystemTime::now());
+
+                    // Add to index for future lookups
+                    let entry = DiskCacheEntry {
+                        file_path: file_path.clone(),
+                        size_bytes,
+                        created_at: created,
+                        expires_at: None, // Can't determine TTL from existing file
+                        last_accessed: SystemTime::now(),
+                        access_count: 1,
+                    };
+
+                    index.insert(key.clone(), entry);
+                    self.entry_count.fetch_add(1, Ordering::Relaxed);
+                    self.disk_usage
+                        .fetch_add(size_bytes as u64, Ordering::Relaxed);
+
+                    self.metrics.record_get(true, start_time.elapsed());
+                    return Ok(Some(data));
+                }
+                // No file (or unreadable) - a miss
+            }
+
             self.metrics.record_get(false, start_time.elapsed());
-            Ok(None)
+            return Ok(None);
         }
     }
 
@@ -617,17 +657,24 @@ impl<K: CacheKey + 'static> AsyncCache<K> for DiskCache<K> {
 
         let file_path = self.get_file_path(&key)?;
 
-        // Write data to disk
-        self.write_file(&file_path, &value).await?;
+        // Write data to a temporary file
+        let temp_path = self.write_temp_file(&file_path, &value).await?;
 
-        #[cfg(feature = "verif-hooks")]
-        crate::verif_hooks::sched_point("disk.put.file_renamed");
-        // Update index
+        // Publish the file and update index and counters in one step. Every
+        // change to a key's file, its index entry and the counters happens
+        // under the index write lock, so concurrent operations on the key
+        // see all of it or none of it.
         {
-            let mut index = self
-                .index
-                .write()
-                .map_err(|_| CacheError::LockTimeout("index write lock".to_string()))?;
+            let Ok(mut index) = self.index.write() else {
+                let _ = fs::remove_file(&temp_path);
+                return Err(CacheError::LockTimeout("index write lock".to_string()));
+            };
+
+            // Atomic rename
+            if let Err(e) = fs::rename(&temp_path, &file_path) {
+                let _ = fs::remove_file(&temp_path);
+                return Err(CacheError::Io(e));
+            }
 
             let entry = DiskCacheEntry::new(file_path.clone(), size_bytes, Some(ttl));
 
@@ -712,16 +759,19 @@ impl<K: CacheKey + 'static> AsyncCache<K> for DiskCache<K> {
         }
 
         index.clear();
-        drop(index); // Release lock early to reduce contention
 
+        // Counters and leftover files are reset under the lock as well: a put
+        // that publishes its file right after this must find neither its
+        // accounting zeroed nor its file swept away
         self.entry_count.store(0, Ordering::Relaxed);
         self.disk_usage.store(0, Ordering::Relaxed);
         self.metrics.reset();
 
         // Also clean up any remaining files and subdirectories
-        self.clear_directory_recursive(&self.config.cache_dir)?;
+        let swept = self.clear_directory_recursive(&self.config.cache_dir);
+        drop(index);
 
-        Ok(())
+        swept
     }
 
     async fn stats(&self) -> CacheResult<crate::stats::CacheStats> {
